@@ -8,7 +8,7 @@
    byte, including rejects and .pc; idempotence and "fails again the same way" are run too. *)
 From Coq Require Import List ZArith NArith Bool String.
 Import ListNotations.
-From RQ Require Import Base Apply Parser Quilt QuiltProofs Lines.
+From RQ Require Import Base Apply Parser Quilt QuiltProofs Lines Reload.
 Local Notation length := List.length (only parsing).
 
 Theorem C09_already_applied_changes_nothing :
@@ -44,6 +44,16 @@ Print Assumptions C09_reload_same_lines.
 Theorem C09_loaded_lines_are_well_formed : forall bs, wf_lines (split_lines bs).
 Proof. exact split_lines_wf. Qed.
 Print Assumptions C09_loaded_lines_are_well_formed.
+
+(* a file that a push saved is loaded by the next invocation with the same lines (as an existing, non-deleted
+   file with the mode it was saved with): the state the next invocation starts from is the state this one ended with *)
+Theorem C09_saved_file_reloads :
+  forall dm k (m : Apply.mfile bytes) cl fs fs' cl',
+  save_modified_file dm k m cl fs = (fs', ROk cl') -> deleted m = false -> wf_lines (content m) ->
+  exists md ov',
+    get_or_load fs' [] k = ROk ({| content := content m; existed := true; deleted := false; perm := Some (32768 + md)%N |}, ov').
+Proof. exact saved_file_reloads. Qed.
+Print Assumptions C09_saved_file_reloads.
 
 (* REFUTED for one class (known finding no-newline-midfile): a hunk that marks a line as lacking its newline
    although another line of the same side follows leaves that line in the middle of the in-memory file; the
